@@ -47,6 +47,16 @@ MUT = {
     'T10_leaf_arm_before_display_none_arm': (TT, [(
         "                (Display::None, _) => compute_hidden_layout(tree, node),",
         "                (Display::None, true) => compute_hidden_layout(tree, node),")]),
+    # ---- nested only: a grid container that is not the root is laid out by the flexbox algorithm
+    'T20_nested_grid_container_as_flex': (TT, [(
+        "                (Display::Grid, true) => compute_grid_layout(tree, node, inputs),",
+        "                (Display::Grid, true) if tree.taffy.parents[node.into()].is_some() => compute_flexbox_layout(tree, node, inputs),\n"
+        "                (Display::Grid, true) => compute_grid_layout(tree, node, inputs),")]),
+    # ---- composition: an output field of one algorithm that only ANOTHER algorithm reads (block's ChildOut has no baseline; the flex / grid
+    #      ties replay recorded answers)
+    'T18_block_container_reports_a_first_baseline': ('src/compute/block.rs', [(
+        "        first_baselines: Point::NONE,\n        top_margin: if own_margins_collapse_with_children.start {",
+        "        first_baselines: Point { x: None, y: Some(final_outer_size.height * 0.5) },\n        top_margin: if own_margins_collapse_with_children.start {")]),
     # ---- must stay silent
     'H1_dispatch_arms_reordered_has_children_by_len': (TT, [(
         "            let has_children = tree.child_count(node) > 0;",
